@@ -123,6 +123,7 @@ let snap_oracle (prop : string) (ops : op list) (obs : string list) : string =
   if List.length ops <> List.length obs then "fail observation-shape" else
   let logged = ref [] and cfg = ref None and live = ref false and flushed = ref true and last_snap = ref None in
   let verdict = ref "" and checks = ref 0 in
+  let seg = ref [] and seg_ok = ref true in
   let direct c = (c.c_cap = None) in
   let check c snap after_stop =
     incr checks;
@@ -142,6 +143,14 @@ let snap_oracle (prop : string) (ops : op list) (obs : string list) : string =
        if after_stop then begin
          let files = List.filter_map (fun ((_, k), d) -> if int_of_n k = 0 then Some d else None) snap in
          if not (oracle_tiles files !logged) then fail "files-do-not-tile-the-logged-records"
+         (* what was logged since the last start / reset_flw / reopen_output (no external rename since) is at the end of the
+            family of the configuration that is in force: the records went to the newly specified file or family *)
+         else if !seg_ok && not (is_suffix !seg (
+             match c.c_rot with
+             | Some _ -> stream_of c snap
+             | None -> List.concat (List.filter_map (fun ((nm, k), d) ->
+                                        if int_of_n k = 0 && name_documented c [] nm then Some d else None) snap))) then
+           fail "records-after-the-switch-are-not-in-the-newly-specified-file-or-family"
        end
      | _ -> ()) in
   let prev_stop = ref false in
@@ -152,13 +161,14 @@ let snap_oracle (prop : string) (ops : op list) (obs : string list) : string =
           | Some snap when !cfg = None -> logged := stream_of c snap
           | _ -> ());
          (match c.c_rot with None when not c.c_append && prop <> "C18" -> logged := [] | _ -> ());
-         cfg := Some c; live := true; flushed := true; prev_stop := false
-       | OReset c -> cfg := Some c; flushed := true
+         cfg := Some c; live := true; flushed := true; prev_stop := false; seg := []; seg_ok := true
+       | OReset c -> cfg := Some c; flushed := true; if ob = "r0" then (seg := []; seg_ok := true) else seg_ok := false
+       | OExtRename _ | OExtRemove _ -> seg_ok := false
        | OWrite b | OPlain b ->
-         if !live && ob = "r0" then (logged := !logged @ b;
+         if !live && ob = "r0" then (logged := !logged @ b; seg := !seg @ b;
                                      match !cfg with Some c -> flushed := direct c | None -> ())
        | OFlush | OShutdown -> flushed := true
-       | OReopen -> flushed := true
+       | OReopen -> flushed := true; if ob = "r0" then (seg := []; seg_ok := true)
        | OStop -> live := false; flushed := true; prev_stop := true
        | OSnap ->
          if is_snapshot ob then begin
